@@ -42,15 +42,15 @@ LinkSeqs == UNION {[1..n -> Links] : n \in 0..2}
 \* float64 cannot all represent - the signing view must bind the exact integer)
 Entries ==
   \* every payload with fixed links, and every link shape with a fixed payload
-  [payload : Payloads, id : {"X"}, next : {<<"c1">>}, refs : {<<"c3">>}, v : {2}, cid : {"k1"}, ct : {5}, ctb : {"small"}, key : {"k1"}]
+  [payload : Payloads, id : {"X"}, next : {<<"c1">>}, refs : {<<"c3">>}, v : {2}, cid : {"k1"}, ct : {5}, ctb : {"small"}, key : {"k1"}, penc : {"raw"}]
   \cup [payload : {<<"a", "u">>}, id : {"X"}, next : {<<>>, <<"c1">>, <<"c1", "c2">>}, refs : {<<>>, <<"c3">>, <<"c3", "c1">>},
-         v : {2}, cid : {"k1"}, ct : {5}, ctb : {"small"}, key : {"k1"}]
+         v : {2}, cid : {"k1"}, ct : {5}, ctb : {"small"}, key : {"k1"}, penc : {"raw"}]
   \cup [payload : {<<"a", "u">>}, id : {"X"}, next : {<<"c1">>}, refs : {<<"c3">>}, v : {2}, cid : {"k1"}, ct : {5, 6},
-         ctb : {"big53", "big62"}, key : {"k1"}]
+         ctb : {"big53", "big62"}, key : {"k1"}, penc : {"raw"}]
 
 SignedView(e) ==
   [payload |-> SignedPayload(e.payload), id |-> e.id, next |-> e.next, refs |-> e.refs, v |-> e.v,
-   cid |-> e.cid, ct |-> e.ct, ctb |-> e.ctb]
+   cid |-> e.cid, ct |-> e.ct, ctb |-> e.ctb, penc |-> e.penc]
 
 \* ideal signature scheme: unforgeable and deterministic
 Sign(e) == <<SignedView(e), e.key>>
@@ -66,8 +66,12 @@ EditsOfPayload(p) ==
       \/ Len(q) + 1 = Len(p) /\ SubSeq(p, 1, Len(q)) = q}                         \* truncated by one
 EditsOfLinks(s) == {t \in LinkSeqs : t # s}
 
+\* penc: the payload bytes are those of the symbols ("raw"), or a textual re-encoding of them - the payload REPLACED by
+\* its own base64 / hex / JSON-escaped text is a different payload and must not verify under the original signature
+PayloadEncodings == {"base64", "hex", "jsonstring", "urlbase64"}
 Mutants(e) ==
   {[f |-> "payload", e2 |-> [e EXCEPT !.payload = q]] : q \in EditsOfPayload(e.payload)}
+  \cup {[f |-> "payload", e2 |-> [e EXCEPT !.penc = x]] : x \in (IF e.payload = <<>> THEN {} ELSE PayloadEncodings)}
   \cup {[f |-> "id", e2 |-> [e EXCEPT !.id = "Y"]]}
   \cup {[f |-> "next", e2 |-> [e EXCEPT !.next = t]] : t \in EditsOfLinks(e.next)}
   \cup {[f |-> "refs", e2 |-> [e EXCEPT !.refs = t]] : t \in EditsOfLinks(e.refs)}
@@ -120,6 +124,7 @@ Pairs(kind, fields) ==
 C12Obligations ==
   Single("entry", EntryFields) \cup Single("manifest", ManifestFields) \cup Single("entryv0", {"v", "id", "key", "sig", "next", "clock", "payload", "hash"})
   \cup {[k |-> "c12", obj |-> "entry", devs |-> {}], [k |-> "c12", obj |-> "manifest", devs |-> {}]}
+  \cup Pairs("manifest", ManifestFields)                       \* both manifest fields deviating at once (always: 2 fields only)
   \cup (IF Pairwise THEN Pairs("entry", EntryFields) ELSE {})
 
 \* blocks of a link-encrypting log: the sealed side field decrypts (right key) to a CBOR map {next, refs};
